@@ -652,12 +652,12 @@ theorem local_is_filter {b apps dir l} (h : selectedBins b apps (.local dir) = .
     · rename_i hk
       rw [if_neg hk]; rfl
 
-/-- with an explicit `--apps` list local mode either fails or selects exactly what global mode
-    selects -/
-theorem local_some_eq_global {b as dir l} (h : selectedBins b (.some as) (.local dir) = .ok l) :
-    selectedBins b (.some as) .global = .ok l := by
-  obtain ⟨g, hg, hl⟩ := local_is_filter h
-  have hgf := selectedBins_ok hg
+/-- with an explicit `--apps` list, local mode fails only when a listed name has no definition in the start directory: every binary
+    that global mode selects and local mode drops has a namesake that local mode keeps (before the repair a name defined in the start
+    directory AND elsewhere made the cold run fail while a cache written by a wider run served it, C08) -/
+theorem local_some_dropped_has_namesake {b as dir l} (h : selectedBins b (.some as) (.local dir) = .ok l) :
+    ∀ m ∈ b.bins, (Selector.some as).selects m.name = true → m ∉ l → ∃ m' ∈ l, m'.name = m.name := by
+  have hl := selectedBins_ok h
   unfold selectedBins at h
   dsimp only at h
   split at h
@@ -665,20 +665,26 @@ theorem local_some_eq_global {b as dir l} (h : selectedBins b (.some as) (.local
   · split at h
     · cases h
     · rename_i hout
-      have hempty : List.filter (fun m => m.relpath != dir)
+      intro m hm hsel hnot
+      have hempty : List.filter (fun m => m.relpath != dir && !((List.filter (fun m => (Selector.some as).selects m.name) b.bins).any
+            (fun m' => m'.relpath == dir && m'.name == m.name)))
           (List.filter (fun m => (Selector.some as).selects m.name) b.bins) = [] := by
         simpa using hout
-      rw [hg, hl]
-      congr 1
-      symm
-      rw [List.filter_eq_self]
-      intro m hm
       rw [List.filter_eq_nil_iff] at hempty
-      have hm' : m ∈ List.filter (fun m => (Selector.some as).selects m.name) b.bins := by
-        rw [hgf] at hm
-        exact (List.mem_filter.mp hm).1
+      have hm' : m ∈ List.filter (fun m => (Selector.some as).selects m.name) b.bins := List.mem_filter.mpr ⟨hm, hsel⟩
+      have hd : m.relpath ≠ dir := by
+        intro hd
+        apply hnot
+        rw [hl]
+        exact List.mem_filter.mpr ⟨hm', by simp [modePred, hd]⟩
       have := hempty m hm'
-      simpa using this
+      simp only [Bool.and_eq_true, bne_iff_ne, ne_eq, hd, not_false_eq_true, Bool.not_eq_eq_eq_not, Bool.not_true, true_and,
+        Bool.not_eq_false] at this
+      obtain ⟨m', hm'in, hm'p⟩ := List.any_eq_true.mp this
+      simp only [Bool.and_eq_true, beq_iff_eq] at hm'p
+      refine ⟨m', ?_, hm'p.2⟩
+      rw [hl]
+      exact List.mem_filter.mpr ⟨hm'in, by simp [modePred, hm'p.1]⟩
 
 /-- **selected_subset (apps)**: `--apps as` selects, of the binaries selected without it, exactly
     those named in `as` (same order) -/
